@@ -94,6 +94,10 @@ def bounded(ctx, b):
     for _ in range(300 if not ctx.thorough else 3000):
         k = rng.choice([2, 3, 4])
         cases.append(([rng.choice(tx) for _ in range(k)], rng.choice(variants)))
+    for t in tx[:len(ADVERSARIAL)] + rng.sample(tx, 40):
+        cases.append(([t, t], "plain"))                                   # a line said twice is two lines
+        cases.append(([t, t, rng.choice(tx), t], "plain"))
+    shared_objects(ctx, b, tx, rng)
     for lines, variant in cases:
         # three cues: the adversarial one in the middle, so that a cue ended early, merged or lost shows
         mk = lambda: CaptionSet({"en-US": CaptionList([
@@ -120,6 +124,44 @@ def bounded(ctx, b):
 
 
 _WRITER_OBJECTS = {}
+
+
+def shared_objects(ctx, b, tx, rng):
+    """caption sets in which objects occur more than once (the same node list in two captions, the same caption
+    list under two language codes): each occurrence is written as the text it is, once escaped"""
+    for t in tx[:len(ADVERSARIAL)] + rng.sample(tx, 30):
+        lines = [t, rng.choice(tx)]
+        for fmt, W in WRITERS.items():
+            if fmt == "microdvd" and any("|" in x for x in lines):
+                continue
+
+            def twice(fmt=fmt, W=W, lines=lines):
+                nodes = node_lists(lines, "plain")
+                cs = CaptionSet({"en-US": CaptionList([Caption(1000000, 2000000, [T("before")]), Caption(3000000, 4000000, nodes),
+                                                       Caption(4500000, 4800000, nodes), Caption(5000000, 6000000, [T("after")])])})
+                doc = _WRITER_OBJECTS.setdefault(fmt, W()).write(cs)
+                try:
+                    cues = parse(fmt, doc)
+                except parsers.FormatError as e:
+                    return False, {"format": fmt, "not_conformant": str(e), "doc": doc[-500:]}
+                f = edges if fmt in EXACT else norm
+                got = [[f(x) for x in cue if f(x)] for cue in cues]
+                mid = [f(x) for x in lines if f(x)]
+                exp = [["before"], mid, mid, ["after"]]
+                return got == exp, {"format": fmt, "lines": lines, "parsed": got, "expected": exp, "doc": doc[-400:]}
+            b.guard(("shared_nodes", fmt, tuple(lines)), twice, sample={"format": fmt, "lines": lines, "case": "two captions made of the same node objects"})
+        for fmt in ("sami", "dfxp", "legacy_dfxp", "single_dfxp"):
+            def two_langs(fmt=fmt, lines=lines):
+                caps = CaptionList([Caption(1000000, 2000000, [T("before")]), Caption(3000000, 4000000, node_lists(lines, "plain"))])
+                doc = _WRITER_OBJECTS.setdefault(fmt, WRITERS[fmt]()).write(CaptionSet({"en-US": caps, "en-GB": caps}))
+                try:
+                    d = parsers.parse_sami(doc) if fmt == "sami" else parsers.parse_dfxp(doc)
+                except parsers.FormatError as e:
+                    return False, {"format": fmt, "not_conformant": str(e), "doc": doc[-500:]}
+                exp = [["before"], [norm(x) for x in lines if norm(x)]]
+                got = {l: [[norm(x) for x in cu["lines"] if norm(x)] for cu in d["cues"].get(l, [])] for l in ("en-US", "en-GB")}
+                return got == {"en-US": exp, "en-GB": exp}, {"format": fmt, "lines": lines, "parsed": got, "expected_in_both_languages": exp, "doc": doc[-400:]}
+            b.guard(("shared_list", fmt, tuple(lines)), two_langs, sample={"format": fmt, "lines": lines, "case": "one caption list under two language codes"})
 
 
 def bounded_escape(ctx, b):
